@@ -28,6 +28,7 @@ CONSTANTS
   MaxFaults,     \* budget of wire faults
   Kinds,         \* subscription kinds offered: subset of {"pos", "rec", "plain", "nohist"}
   RecLimit,      \* RecoveryMaxPublicationLimit (0 = none)
+  MaxChecks,     \* periodic position checks per behaviour (Client.checkPosition on the presence tick; 0 = none)
   Servers,       \* subset of BOOLEAN: FALSE = client-side subscribe command, TRUE = server-side Client.Subscribe
   UrgentAsync    \* TRUE: a spawned insufficient-state goroutine runs before anything else (replay configs: the
                  \* goroutine cannot be parked without a hook); FALSE: it may be delayed arbitrarily (design check)
@@ -48,10 +49,12 @@ VARIABLES
   buf,           \* pubSubSync buffer (while buffering)
   sub,           \* [st: "none" | "live" | "ended", pos, ep]
   pend,          \* spawned, not yet executed handleInsufficientState goroutines
+  chk,           \* periodic position check in progress: [st: "idle" | "read" | "judged", pos, ep, valid]
+  nchk,
   out,           \* frames written to the connection (history variable)
   step
 
-vars == <<top, win, tags, wire, npub, faults, cfg, pc, hub, hres, buf, sub, pend, out, step>>
+vars == <<top, win, tags, wire, npub, faults, cfg, pc, hub, hres, buf, sub, pend, chk, nchk, out, step>>
 
 Positioned == cfg.kind \in {"pos", "rec", "cache"}
 Buffering  == Positioned /\ pc \in {"g1", "g2", "g3"}
@@ -92,12 +95,16 @@ ServerCfgs ==
           ELSE {})
 Cfgs == (IF FALSE \in Servers THEN ClientCfgs ELSE {}) \cup (IF TRUE \in Servers THEN ServerCfgs ELSE {})
 
+\* adv: ids of the deliveries that advanced the position while the check was in progress (history, for the witness below)
+NoCheck == [st |-> "idle", pos |-> 0, ep |-> "", valid |-> FALSE, adv |-> {}]
+
 Init ==
   /\ top = 0 /\ win = <<>> /\ tags = <<>> /\ wire = {} /\ npub = 0 /\ faults = 0
   /\ cfg \in Cfgs
   /\ pc = "idle" /\ hub = FALSE /\ hres = [pubs |-> <<>>, top |-> 0, latest |-> 0, vis |-> 0, win |-> <<>>] /\ buf = <<>>
   /\ sub = [st |-> "none", pos |-> 0, ep |-> ""]
   /\ pend = 0 /\ out = <<>>
+  /\ chk = NoCheck /\ nchk = 0
   /\ step = [act |-> "Init"]
 
 ---------------------------------------------------------------------------
@@ -113,14 +120,14 @@ Publish(tag) ==
             /\ LET w == Append(win, [off |-> top + 1, tag |-> tag])
                IN win' = IF Len(w) > HistSize THEN SubSeq(w, Len(w) - HistSize + 1, Len(w)) ELSE w
             /\ wire' = wire \cup {[id |-> npub + 1, off |-> top + 1, ep |-> Ep, tag |-> tag, lag |-> FALSE]}
-  /\ UNCHANGED <<faults, cfg, pc, hub, hres, buf, sub, pend, out>>
+  /\ UNCHANGED <<faults, cfg, pc, hub, hres, buf, sub, pend, chk, nchk, out>>
   /\ step' = [act |-> "Publish", tag |-> tag, id |-> npub + 1]
 
 \* RemoveHistory / expiry: the window is cleared, top and epoch stay
 ClearHistory ==
   /\ win # <<>> /\ cfg.kind # "nohist"
   /\ win' = <<>>
-  /\ UNCHANGED <<top, tags, wire, npub, faults, cfg, pc, hub, hres, buf, sub, pend, out>>
+  /\ UNCHANGED <<top, tags, wire, npub, faults, cfg, pc, hub, hres, buf, sub, pend, chk, nchk, out>>
   /\ step' = [act |-> "ClearHistory"]
 
 (* node side: one delivery entering Node.HandlePublication *)
@@ -162,14 +169,15 @@ Deliver(d, keep, foreign, lagged) ==
   /\ (foreign \/ lagged) => d.off # 0
   /\ wire' = IF keep THEN wire ELSE wire \ {d}
   /\ Receive([d EXCEPT !.ep = IF foreign THEN "e2" ELSE d.ep, !.lag = lagged])
-  /\ UNCHANGED <<top, win, tags, npub, cfg, pc, hub, hres>>
+  /\ chk' = IF chk.st # "idle" /\ sub'.pos > sub.pos THEN [chk EXCEPT !.adv = @ \cup {d.id}] ELSE chk
+  /\ UNCHANGED <<top, win, tags, npub, cfg, pc, hub, hres, nchk>>
   /\ step' = [act |-> "Deliver", id |-> d.id, keep |-> keep, foreign |-> foreign, lagged |-> lagged]
 
 Drop(d) ==
   /\ d \in wire /\ faults < MaxFaults
   /\ faults' = faults + 1
   /\ wire' = wire \ {d}
-  /\ UNCHANGED <<top, win, tags, npub, cfg, pc, hub, hres, buf, sub, pend, out>>
+  /\ UNCHANGED <<top, win, tags, npub, cfg, pc, hub, hres, buf, sub, pend, chk, nchk, out>>
   /\ step' = [act |-> "Drop", id |-> d.id]
 
 \* handleInsufficientState goroutine (client-side subscription => unsubscribe + push; server-side => disconnect)
@@ -181,7 +189,7 @@ AsyncEnd ==
   /\ IF cfg.server
        THEN out' = IF sub.st = "live" THEN Append(out, [t |-> "disc", code |-> DiscInsufficient]) ELSE out   \* close is idempotent
        ELSE out' = Append(out, [t |-> "unsub", code |-> InsufficientCode])     \* written even when already gone (as coded)
-  /\ UNCHANGED <<top, win, tags, wire, npub, faults, cfg, pc, hres, buf>>
+  /\ UNCHANGED <<top, win, tags, wire, npub, faults, cfg, pc, hres, buf, chk, nchk>>
   /\ step' = [act |-> "AsyncEnd"]
 
 ---------------------------------------------------------------------------
@@ -189,13 +197,13 @@ AsyncEnd ==
 SubStart ==                                  \* ... StartBuffering, addSubscription -> parked in Broker.Subscribe
   /\ pc = "idle"
   /\ pc' = "g1" /\ hub' = TRUE
-  /\ UNCHANGED <<top, win, tags, wire, npub, faults, cfg, hres, buf, sub, pend, out>>
+  /\ UNCHANGED <<top, win, tags, wire, npub, faults, cfg, hres, buf, sub, pend, chk, nchk, out>>
   /\ step' = [act |-> "SubStart"]
 
 SubToHistory ==                              \* released -> parked before Broker.History
   /\ pc = "g1" /\ Positioned
   /\ pc' = "g2"
-  /\ UNCHANGED <<top, win, tags, wire, npub, faults, cfg, hub, hres, buf, sub, pend, out>>
+  /\ UNCHANGED <<top, win, tags, wire, npub, faults, cfg, hub, hres, buf, sub, pend, chk, nchk, out>>
   /\ step' = [act |-> "SubToHistory"]
 
 \* Stream.Get from since+1 with the recovery limit (see MemBroker.tla for the full transcription)
@@ -217,7 +225,7 @@ SubHistRead ==                               \* the broker's History call happen
               \* the newest publication in history, visible or not (C03: `recovered` does not depend on the filter)
               latest |-> IF cfg.kind = "cache" THEN Newest(win) ELSE 0,
               win    |-> win]
-  /\ UNCHANGED <<top, win, tags, wire, npub, faults, cfg, hub, buf, sub, pend, out>>
+  /\ UNCHANGED <<top, win, tags, wire, npub, faults, cfg, hub, buf, sub, pend, chk, nchk, out>>
   /\ step' = [act |-> "SubHistRead"]
 
 \* isStreamRecovered
@@ -279,8 +287,40 @@ SubFinish ==
                    /\ sub' = [st |-> "live", pos |-> latest, ep |-> IF cfg.noep THEN "" ELSE Ep]
                    /\ pc' = "done" /\ buf' = <<>>
                    /\ UNCHANGED <<hub, pend>>
-  /\ UNCHANGED <<top, win, tags, wire, npub, faults, cfg, hres>>
+  /\ UNCHANGED <<top, win, tags, wire, npub, faults, cfg, hres, chk, nchk>>
   /\ step' = [act |-> "SubFinish"]
+
+---------------------------------------------------------------------------
+(* periodic position check (client.go checkPosition, run by the presence tick): the position is read under c.mu,
+   the stream top is asked from the broker WITHOUT the lock (deliveries go on meanwhile), a valid answer only stamps
+   the check time (the position itself is not touched), an invalid one ends the subscription with insufficient state
+   (client-side: unsubscribe + push from a goroutine the harness cannot park; server-side: disconnect).
+   As coded the comparison is position = top and same epoch, also while deliveries are still on the wire. *)
+CheckStart ==
+  /\ MaxChecks > 0 /\ nchk < MaxChecks
+  /\ Positioned /\ ~cfg.noep /\ pc = "done" /\ sub.st = "live" /\ chk.st = "idle" /\ pend = 0
+  /\ chk' = [st |-> "read", pos |-> sub.pos, ep |-> sub.ep, valid |-> FALSE, adv |-> {}]
+  /\ nchk' = nchk + 1
+  /\ UNCHANGED <<top, win, tags, wire, npub, faults, cfg, pc, hub, hres, buf, sub, pend, out>>
+  /\ step' = [act |-> "CheckStart"]
+
+CheckRead ==                                 \* the broker's History(limit 0) call happens
+  /\ chk.st = "read"
+  /\ chk' = [chk EXCEPT !.st = "judged", !.valid = (chk.pos = top /\ chk.ep = Ep)]
+  /\ UNCHANGED <<top, win, tags, wire, npub, faults, cfg, pc, hub, hres, buf, sub, pend, nchk, out>>
+  /\ step' = [act |-> "CheckRead"]
+
+CheckEnd ==
+  /\ chk.st = "judged"
+  /\ chk' = [NoCheck EXCEPT !.adv = IF chk.valid THEN chk.adv ELSE {}]
+  /\ IF chk.valid THEN UNCHANGED <<sub, hub, out>>
+     ELSE /\ IF sub.st = "live" THEN sub' = [sub EXCEPT !.st = "ended"] /\ hub' = FALSE
+                              ELSE UNCHANGED <<sub, hub>>
+          /\ IF cfg.server
+               THEN out' = IF sub.st = "live" THEN Append(out, [t |-> "disc", code |-> DiscInsufficient]) ELSE out
+               ELSE out' = Append(out, [t |-> "unsub", code |-> InsufficientCode])
+  /\ UNCHANGED <<top, win, tags, wire, npub, faults, cfg, pc, hres, buf, pend, nchk>>
+  /\ step' = [act |-> "CheckEnd", valid |-> chk.valid]
 
 Next ==
   IF UrgentAsync /\ pend > 0 THEN AsyncEnd ELSE
@@ -290,6 +330,7 @@ Next ==
   \/ \E d \in wire, k \in BOOLEAN, f \in BOOLEAN, l \in BOOLEAN : Deliver(d, k, f, l)
   \/ AsyncEnd
   \/ SubStart \/ SubToHistory \/ SubHistRead \/ SubFinish
+  \/ CheckStart \/ CheckRead \/ CheckEnd
 
 Spec == Init /\ [][Next]_vars
 
@@ -358,7 +399,14 @@ C03 == (ReplyIdx # 0 /\ cfg.kind = "cache") =>
 \* the position the server keeps equals the last offset it accounted for
 PosConsistent == (sub.st = "live" /\ Positioned /\ Seen # <<>>) => sub.pos >= Seen[Len(Seen)]
 
+\* witness search: "a delivery that advanced the position during a valid position check is never delivered again
+\* afterwards" (the schedule on which a check that writes back a stale position would re-deliver it)
+W_RedeliveryAfterCheck == ~(step.act = "Deliver" /\ chk.st = "idle" /\ step.id \in chk.adv /\ sub.st = "live" /\ pend = 0)
+
+KindsPos == {"pos"}
+ServersClient == {FALSE}
+
 TypeOK == pend >= 0 /\ faults <= MaxFaults /\ npub <= MaxPub
 
-View == <<top, win, wire, npub, faults, cfg, pc, hub, hres, buf, sub, pend, out>>
+View == <<top, win, wire, npub, faults, cfg, pc, hub, hres, buf, sub, pend, chk, nchk, out>>
 =============================================================================
